@@ -83,7 +83,7 @@ fn configs() -> Vec<Config> {
     out
 }
 
-const PATHS: [&str; 3] = ["/", "/printers/x", "/a%20b?q=1&r=2"];
+const PATHS: [&str; 5] = ["/", "/printers/x", "/a%20b?q=1&r=2", "/printers/jdoe@corp", "/p?user=a@b"];
 const SCHEMES: [&str; 2] = ["http", "ipp"];
 
 /// source 0 = in-memory cursor, 1 = fragmenting blocking source (8191-byte reads), 2 = blocking source whose
@@ -117,11 +117,14 @@ fn exchange(kind: ClientKind, rt: &tokio::runtime::Runtime, scheme: &str, path: 
     let port = l.port;
     let l = Arc::new(l);
     let l2 = l.clone();
-    let server = std::thread::spawn(move || l2.accept(Duration::from_secs(20)).map(|s| serve_plain(s, &script)));
+    let done = Arc::new(std::sync::atomic::AtomicBool::new(false));
+    let done2 = done.clone();
+    let server = std::thread::spawn(move || l2.accept_until(Duration::from_secs(20), &done2).map(|s| serve_plain(s, &script)));
     let uri = format!("{}://127.0.0.1:{}{}", scheme, port, path);
     let t0 = Instant::now();
     let result = send(kind, rt, &uri, cfg, req);
     let took = t0.elapsed();
+    done.store(true, std::sync::atomic::Ordering::SeqCst);
     let ex = server.join().ok().flatten();
     let extra = l.pending();
     (result, ex, extra, port, took)
@@ -179,7 +182,7 @@ pub fn run(ctx: &Ctx) -> ! {
     let mut rep = Report::new(
         ctx,
         "fault_enumeration",
-        "both clients (blocking ureq; async reqwest on a tokio runtime) against a hand-written loopback HTTP/1.1 peer. Request side: requests x payload {none, 1 B, 70 000 B, 70 000 B from a blocking source that reports Interrupted three times (, 3 MiB from a fragmenting source)} x client configuration {none, 1-3 custom headers incl. user-agent override, basic auth with 4 credential shapes} x target path {/, /printers/x, /a%20b?q=1&r=2} x scheme {http, ipp} -> exactly one connection, POST, exact target, Host, content-type, headers, Basic credentials, body = request + payload (decoded by R1). A request object serialised once (to_bytes), then changed (header fields, attributes, payload), then sent must go out in its current state. Response side: responses x trailing data {none, 3 B, 70 000 B} x framing {content-length, chunked, close-delimited} x write plan {one write, one byte per write, EVERY two-piece split}. Failures: every HTTP status 400-599 with and without an IPP body; connection cut after EVERY offset of header+attributes under each framing and inside the HTTP head; stalled server with and without request_timeout. History: two sequential sends through one client value with the first exchange ending in 8 different ways (ok, 500, 404 with IPP body, cut in attributes, cut in head, chunked, close-delimited, IPP error status): the second must be one fresh POST with its own response. Concurrency: N = 2, 3 (4) senders through one client, the peer collects all N requests and answers in EVERY one of the N! orders. distinct = exchange script; non-trivial = exchange with a fault, fragmentation or non-default configuration",
+        "both clients (blocking ureq; async reqwest on a tokio runtime) against a hand-written loopback HTTP/1.1 peer. Request side: requests x payload {none, 1 B, 70 000 B, 70 000 B from a blocking source that reports Interrupted three times (, 3 MiB from a fragmenting source)} x client configuration {none, 1-3 custom headers incl. user-agent override, basic auth with 4 credential shapes} x target path {/, /printers/x, /a%20b?q=1&r=2, /printers/jdoe@corp, /p?user=a@b} x scheme {http, ipp}; and target shapes {ipp, http} x host {127.0.0.1, localhost} x user-info(4) x path(7) x query(5) (with '@', ':' and '/' in path and query) x configuration {plain, basic_auth, custom header, Authorization header}: request target, Host, one connection -> exactly one connection, POST, exact target, Host, content-type, headers, Basic credentials, body = request + payload (decoded by R1). A request object serialised once (to_bytes), then changed (header fields, attributes, payload), then sent must go out in its current state. Response side: responses x trailing data {none, 3 B, 70 000 B} x framing {content-length, chunked, close-delimited} x write plan {one write, one byte per write, EVERY two-piece split}. Failures: every HTTP status 400-599 with and without an IPP body; connection cut after EVERY offset of header+attributes under each framing and inside the HTTP head; stalled server with and without request_timeout. History: two sequential sends through one client value with the first exchange ending in 8 different ways (ok, 500, 404 with IPP body, cut in attributes, cut in head, chunked, close-delimited, IPP error status): the second must be one fresh POST with its own response. Concurrency: N = 2, 3 (4) senders through one client, the peer collects all N requests and answers in EVERY one of the N! orders. distinct = exchange script; non-trivial = exchange with a fault, fragmentation or non-default configuration",
     );
     rep.assume("interleavings inside hyper / tokio / ureq are not under a controlled scheduler; send(&self) builds a fresh agent and connection per call, so the only cross-request channel is the peer's answer order, which is enumerated");
     rep.assume("verdicts depend only on outcome classes that are stable under TCP coalescing");
@@ -270,6 +273,11 @@ pub fn run(ctx: &Ctx) -> ! {
         s.merge(p.0);
     }
     rep.section("request-side", s);
+    eprintln!("  elapsed {:?}", rep.start.elapsed());
+
+    // ---------------- (1a) the URL really contacted, for every target shape x client configuration
+    let w = crate::wireurl::run_all(ctx);
+    rep.section("target-and-host-on-the-wire", w);
     eprintln!("  elapsed {:?}", rep.start.elapsed());
 
     // ---------------- (1c) a request object that was serialised once, then changed, then sent
